@@ -130,7 +130,9 @@ fn clone_empty_h<T: 'static>(other_builder: bool) {
 }
 
 /// reserve / reserve_exact with `len + n` representable and inside the harness domain
-fn reserve_h<T: 'static>(exact: bool) {
+fn reserve_h<T: 'static>(exact: bool) { reserve_ht::<T>(exact, false) }
+/// `typed`: through the typed view (`AnyVecTyped::{reserve, reserve_exact}`)
+fn reserve_ht<T: 'static>(exact: bool, typed: bool) {
     ghost_init();
     let (len, cap) = sym_state();
     let mut v = unsafe { mk_vec::<dyn None, T>(0, len, cap, false, true) };
@@ -140,8 +142,13 @@ fn reserve_h<T: 'static>(exact: bool) {
     let w = if has_w { witness_slot(TW, 0, len) } else { 0 };
     let n = any_narrow();
     kani::assume(n <= CAPMAX);
-    if exact { v.reserve_exact(n) } else { v.reserve(n) }
+    if typed {
+        let mut t = v.downcast_mut::<T>().unwrap();
+        if exact { t.reserve_exact(n) } else { t.reserve(n) }
+        kani::assert(t.len() == len, "typed view reports the same length");
+    } else if exact { v.reserve_exact(n) } else { v.reserve(n) }
     let cap2 = v.capacity();
+    if typed { kani::assert(v.downcast_ref::<T>().unwrap().capacity() == cap2, "typed view reports the vector's capacity"); }
     kani::assert(post::reserve_ok(len, cap, n, cap2), "reserve: capacity' >= len + n, unchanged when that already held");
     kani::assert(g().v[0].cap_changes == if post::reserve_must_grow(len, cap, n) { 1 } else { 0 }, "reserve: reallocates exactly when capacity < len + n");
     if exact && post::reserve_must_grow(len, cap, n) {
@@ -159,7 +166,9 @@ fn reserve_h<T: 'static>(exact: bool) {
     core::mem::forget(v);
 }
 
-fn shrink_h<T: 'static>(fit: bool) {
+fn shrink_h<T: 'static>(fit: bool) { shrink_ht::<T>(fit, false) }
+/// `typed`: through the typed view (`AnyVecTyped::{shrink_to, shrink_to_fit}`)
+fn shrink_ht<T: 'static>(fit: bool, typed: bool) {
     ghost_init();
     let (len, cap) = sym_state();
     let mut v = unsafe { mk_vec::<dyn None, T>(0, len, cap, false, true) };
@@ -168,7 +177,10 @@ fn shrink_h<T: 'static>(fit: bool) {
     let has_w = len > 0;
     let w = if has_w { witness_slot(TW, 0, len) } else { 0 };
     let m: usize = if fit { 0 } else { kani::any() };
-    if fit { v.shrink_to_fit() } else { v.shrink_to(m) }
+    if typed {
+        let mut t = v.downcast_mut::<T>().unwrap();
+        if fit { t.shrink_to_fit() } else { t.shrink_to(m) }
+    } else if fit { v.shrink_to_fit() } else { v.shrink_to(m) }
     let cap2 = v.capacity();
     kani::assert(cap2 <= cap, "shrink never increases capacity");
     kani::assert(cap2 >= len, "shrink never goes below len");
